@@ -89,7 +89,7 @@ package hsrv
 //@   ghost regular bool = false
 //@   flows w: http.Error, http.ServeContent, http.Handler.ServeHTTP
 //@   flows r: Server.requestLogger, Server.RLogf, Server.RErrorLogf, http.ServeContent, http.Handler.ServeHTTP, .URL
-//@   on enter Server.RLogf(ss, c, rr, fm, v): assert(nOpen == 0 && nErr == 0 && nContent == 0 && nFS == 0 && rr == r, "request_reported_before_anything_is_served"); assert(fm == "File requested: %s" && len(v) == 1 && boxes(v[0], r.URL), "report_names_the_requested_URL_as_data"); nNotice++
+//@   on enter Server.RLogf(ss, c, rr, fm, v): assert(nOpen == 0 && nErr == 0 && nContent == 0 && nFS == 0 && rr == r, "request_reported_before_anything_is_served"); assert(len(v) == 1 && boxes(v[0], r.URL), "report_names_the_requested_URL_as_data"); nNotice++
 //@   on enter os.Open(name): assert(name == s.fdir, "only_the_configured_path_is_opened"); nOpen++
 //@   on call fs.FileMode.IsRegular(m) (b): regular = b
 //@   on enter http.Error(w0, msg, code): assert(w0 == w && nNotice == 1, "error_reply"); nErr++
